@@ -115,6 +115,10 @@ type Hit struct {
 	Observed  string `json:"observed"`
 	Case      any    `json:"case"`
 	Size      int    `json:"size"`
+	// Static marks a hit that comes from static facts about the source (no
+	// execution exhibited it): it matches known findings, but an unknown one is
+	// reported as "no-failing-input-found" with the facts in the replay file.
+	Static bool `json:"static,omitempty"`
 }
 
 type suiteOut struct {
@@ -240,6 +244,24 @@ func (o *Out) Case(suite, coq string, js any, nontrivial bool) int {
 		o.samples = append(o.samples, map[string]any{"suite": suite, "index": idx, "case": js})
 	}
 	return idx
+}
+
+// Case0 records an executed case that has no Coq-side counterpart (e.g. a
+// stress scenario): it counts for evaluations / samples only.
+func (o *Out) Case0(js any, nontrivial bool) {
+	o.evaluations++
+	b, _ := json.Marshal(js)
+	h := sha256.Sum256(b)
+	k := hex.EncodeToString(h[:12])
+	if !o.seen[k] {
+		o.seen[k] = true
+		if nontrivial {
+			o.nontrivial++
+		}
+	}
+	if len(o.samples) < 3 && nontrivial {
+		o.samples = append(o.samples, js)
+	}
 }
 
 func (o *Out) MonitorChecked(n int) { o.monChecked += n }
